@@ -236,7 +236,8 @@ func c09Scenarios() []*concScenario {
 	// H6: dhcp handler: DISCOVER+REQUEST on the packet loop || MinuteTicker || capture toggles and offer accessors
 	add("H6", 3, func(x *concExec) {
 		concReset()
-		s, _ := concSession()
+		s, conn := concSession()
+		conn.Yield = false // the 256 packet attack burst would otherwise add 256 scheduling points
 		x.data["session"] = s
 		h, err := dhcp4.Config{Mode: dhcp4.ModeSecondaryServerNice, NetfilterIP: netip.MustParsePrefix("192.168.0.129/25"), DNSServer: ip4rtr, LeaseFilename: "leases.yaml"}.New(s)
 		if err != nil {
@@ -381,8 +382,12 @@ func init() {
 				names = append(names, sc.name)
 				rnames = append(rnames, sc.name+".race")
 			}
-			jobs := concJobs(names, 2, false, 1700)
-			jobs = append(jobs, concJobs(rnames, 2, true, 1700)...)
+			n := 2
+			if tier == "thorough" {
+				n = 4
+			}
+			jobs := concJobs(names, n, false, 1700)
+			jobs = append(jobs, concJobs(rnames, n, true, 1700)...)
 			return jobs
 		},
 		Run:    c09Run,
